@@ -31,6 +31,18 @@ CLAIMED = {
         "independent spec oracle written from the documented grammar evaluated on the implementation's output."),
   technique="Lean 4 proof (induction over traversal, case analysis on the tester) + differential correspondence",
   design="DESIGN.md section 7 C02"),
+ "C05": dict(
+  text=("Lean theorems (lean/Props/C05.lean): restrict_is_filter_partial — for every file, nosec map, plugin configuration, blacklist tables and selection, the events "
+        "(reported and nosec-withheld findings) of the scan restricted to a set of test IDs are exactly the events of the unrestricted scan whose ID is selected, proved by "
+        "induction over the whole traversal from per-check lemmas (plugins never name their own ID: plugins_emit_own_id; the blacklist wrapper over per-ID filtered tables: "
+        "blacklist_restrict_visit) under the explicit guard NoMask (no unselected blacklist rule masks a selected one at a node) plus decidable table hypotheses that "
+        "gen_tables_selhyp discharges for the tables regenerated from /repo; corollaries restricted_findings and monotone (enabling more checks never hides a finding); "
+        "NEG_blacklist_first_match (kernel-checked witness of the known first-match defect on the generated table); gen_call_rules_unambiguous (the guard always holds for calls "
+        "with the current table); the _get_filter algebra: b001_alone_is_all_blacklist, b001_with_specific, excluded_never_runs, contradiction_rejected. Correspondence: seeded "
+        "programs x seeded include/exclude selections — real bandit restricted vs filter of its own full run (spec) and vs the Lean model (which computes the filter itself); "
+        "CLI rejection of contradictory selections."),
+  technique="Lean 4 proof (induction over traversal; decide +kernel over generated tables) + differential correspondence",
+  design="DESIGN.md section 7 C05"),
 }
 
 REASON_PENDING = "check not built yet (work in progress; DESIGN.md section 11 gives the build order)"
